@@ -187,55 +187,53 @@ func (m *Model) ApplyBlock(t *MTxn, block uint32) []Change {
 // another model before (used to rebuild per-block prefixes for the snapshot oracle).
 func (m *Model) applyBlockRaw(t *MTxn, block uint32) []Change {
 	var changes []Change
-	deleted := map[uint32]bool{}
+	// Operations are interpreted in issue order per row incarnation: an insert starts a new
+	// (empty) incarnation of its offset, a delete dooms the current incarnation whatever else
+	// the transaction stores into it before or after (put + delete of one row: the row is
+	// gone), and a doomed incarnation is removed at the end unless a later insert of the same
+	// transaction re-used the offset (possible when somebody else freed it in between).
+	doomed := map[uint32]bool{}
 	var deletedOrder []uint32
-	for _, o := range t.Ops {
-		if o.Off>>14 == block && o.Kind == mDelete && !deleted[o.Off] && !o.Dead {
-			deleted[o.Off] = true
-			deletedOrder = append(deletedOrder, o.Off)
-		}
-	}
-	for _, o := range t.Ops {
-		if o.Off>>14 != block {
-			continue
-		}
-		switch o.Kind {
-		case mInsert:
-			if !o.Dead {
-				delete(m.Reserved, o.Off)
-				m.Rows[o.Off] = map[string]MVal{}
-			}
-		}
-	}
 	for _, o := range t.Ops {
 		if o.Off>>14 != block || o.Dead {
 			continue
 		}
 		r, live := m.Rows[o.Off]
 		switch o.Kind {
+		case mInsert:
+			delete(m.Reserved, o.Off)
+			m.Rows[o.Off] = map[string]MVal{}
+			doomed[o.Off] = false
 		case mPut:
-			if live {
+			if live && !doomed[o.Off] {
 				r[o.Col] = o.Val
 			}
 			changes = append(changes, Change{Off: o.Off, Col: o.Col, Val: o.Val})
 		case mMerge:
 			c, _ := m.Col(o.Col)
 			nv := modelMerge(c, r[o.Col], o.Val) // r may be nil: reading a nil map yields the zero value
-			if live {
+			if live && !doomed[o.Off] {
 				r[o.Col] = nv
 			}
 			changes = append(changes, Change{Off: o.Off, Col: o.Col, Val: nv})
-		}
-	}
-	for _, o := range t.Ops {
-		if o.Off>>14 == block && o.Kind == mDelete && !o.Dead {
-			if _, ok := m.Rows[o.Off]; ok {
-				delete(m.Rows, o.Off)
+		case mDelete:
+			if !doomed[o.Off] {
+				deletedOrder = append(deletedOrder, o.Off)
 			}
+			doomed[o.Off] = true
 		}
 	}
 	for _, off := range deletedOrder {
-		changes = append(changes, Change{Off: off, Delete: true})
+		if doomed[off] {
+			delete(m.Rows, off)
+		}
+	}
+	seen := map[uint32]bool{}
+	for _, off := range deletedOrder {
+		if !seen[off] {
+			seen[off] = true
+			changes = append(changes, Change{Off: off, Delete: true})
+		}
 	}
 	m.notePeak()
 	return changes
